@@ -436,6 +436,7 @@ class PGate(e1.Op):
         psi = ins[0]
         slot = rec["in"][0]
         w = core.current_world()
+        invalidate_envs(task, slot)
         if getattr(w, "generating", False):
             task.shadows[slot] = PShadow(dense_peps(task, psi, sh.purified), sh.purified, sh.anc_t)
             return []
@@ -733,6 +734,13 @@ class PPrepare(e1.Op):
         ar, sp = rec["args"], task.space
         anc_t = [list(sp.site.state_t) for _ in range(task.N)] if ar["purified"] else [[sp.site.state_t[ar["occ"][i]]] for i in range(task.N)]
         return [PShadow(dense_peps(task, outs[0], ar["purified"]), ar["purified"], anc_t)]
+
+
+def invalidate_envs(task, slot):
+    """Environments built from the tensors a PEPS held before an in-place change are stale caches: drop them from the model pool."""
+    for q, esh in list(task.shadows.items()):
+        if isinstance(esh, EnvShadow) and esh.psi_slot == slot:
+            task.shadows[q] = None
 
 
 class EnvShadow:
@@ -1089,9 +1097,7 @@ class PEvolve(e1.Op):
         w = core.current_world()
         new_state = PShadow(dense_peps(task, psi, sh.purified), sh.purified, sh.anc_t)
         task.shadows[slot] = new_state            # later measurements refer to the state as it is now
-        for q, esh in list(task.shadows.items()):   # environments built from the old tensors are stale caches now
-            if isinstance(esh, EnvShadow) and esh.psi_slot == slot:
-                task.shadows[q] = None
+        invalidate_envs(task, slot)
         if getattr(w, "generating", False):
             return []
         seen, infos = self._last
